@@ -181,6 +181,14 @@ theorem add_degree (cfg : Comp.Cfg) (wf : WfCfg cfg) (loc : Nat) (hk : cfg.kind 
           · left; simp at hm; rw [hn, hm]
       · simp at h
 
+/-- **why the property exempts small populations**: `add` can only return when at least `c` nodes existed before it
+    (with fewer the real rejection loop never ends) -/
+theorem add_needs_c_others (cfg : Comp.Cfg) (wf : WfCfg cfg) (loc : Nat) (hk : cfg.kind loc = .plain) (c : Nat) (mode : AdMode)
+    (u u' : U K) (h : adAdd? cfg loc c mode u = some u') (inv : Inv loc u.w) : c ≤ u.w.net.nodes.length := by
+  obtain ⟨_, _, hlen, hnd, _, hmem, _, _⟩ := add_degree cfg wf loc hk c mode u u' h inv
+  rw [← hlen]
+  exact (List.subperm_of_subset hnd (fun j hj => hmem j hj)).length_le
+
 /-! ### deletion -/
 
 theorem adDelW_spec (cfg : Comp.Cfg) (wf : WfCfg cfg) (loc : Nat) (hk : cfg.kind loc = .plain) (mode : AdMode) (n : Node) (w : W) :
